@@ -76,13 +76,15 @@ pub fn steps(a: &Args) {
     use yui_matrix::verif::{clear_lll_hook, set_lll_hook, LllStep};
     let mut t = Tracer::create(&a.out);
     let mut rng = a.rng(77);
-    let n_cases = if a.thorough() { 80 } else { 20 };
+    let n_cases = if a.thorough() { 150 } else { 45 };
     let (mut cases, mut nsteps, mut swaps) = (0usize, 0usize, 0usize);
     let big = |s: &str| -> serde_json::Value { crate::enc::big_json(&s.parse::<BigInt>().expect("integer")) };
     for c in 0..n_cases {
         let m = rng.gen_range(2..=if a.thorough() { 5 } else { 4 }); let n = rng.gen_range(m..=m + 2);
-        let mut d = rand_dense::<BigInt>(&mut rng, m, n, 0.8, 9);
-        if c % 2 == 0 { for i in 1..m { let f = BigInt::from(rng.gen_range(3..30)); d[i] = (0..n).map(|j| &d[i][j] + &(&d[i - 1][j] * &f)).collect(); } }
+        // every third case sparse with tiny entries: exact orthogonalities between rows (zero lambda entries at a swap)
+        let sparse = c % 3 == 2;
+        let mut d = if sparse { rand_dense::<BigInt>(&mut rng, m, n, 0.45, 2) } else { rand_dense::<BigInt>(&mut rng, m, n, 0.8, 9) };
+        if c % 2 == 0 && !sparse { for i in 1..m { let f = BigInt::from(rng.gen_range(3..30)); d[i] = (0..n).map(|j| &d[i][j] + &(&d[i - 1][j] * &f)).collect(); } }
         let b0 = dense_of(&d, m, n);
         let rank = { let b1 = b0.clone(); match with_deadline(30, move || snf(&b1, [false; 4]).rank()) { Some(Ok(r)) => r, _ => usize::MAX } };
         if rank != m { continue; }
